@@ -139,6 +139,15 @@ CLAIMS = {
              'acknowledgements must not complete local callbacks. The plan is the only symbolic input, so this is '
              'solver-driven enumeration of the bounded plan space on the real code.',
         ref='5 C15', technique='solver-driven enumeration (CrossHair+z3) of channel contents and fault positions on the real listener'),
+    'C18': dict(
+        text='Symbolic execution of the real InstrumentedServer/InstrumentedAsyncServer: (gate) admin CONNECT through the '
+             'real _handle_connect/admin_connect for a payload palette with symbolic strings against dict / list / sync / '
+             'coroutine predicate (any falsy "no", any truthy "yes") / False credentials, refused attempts answered with '
+             'CONNECT_ERROR and left without membership; (read-only) the four mutating admin requests with symbolic '
+             'arguments have no effect in read-only and production modes; (transparency) the same application scenario '
+             'on a plain and an instrumented server gives identical packets, handler calls, callback firings and rooms to '
+             'application clients, admin connected or not.',
+        ref='5 C18', technique='symbolic execution (CrossHair+z3) of the real admin code; differential instrumented vs plain server'),
 }
 
 PENDING = 'check not built yet in this tree (work in progress); no claim is made'
